@@ -87,3 +87,105 @@ Proof.
   inversion H as [|? ? [H1 H2] H3]; subst. cbn. assert ((c =? w) = false) as -> by (now apply Z.eqb_neq).
   assert ((c =? 92) = false) as -> by (now apply Z.eqb_neq). now apply IH.
 Qed.
+
+(* ---------- raw strings in general ---------- *)
+(** A string has a raw-string spelling iff no maximal run of backslashes of odd
+    length is followed by a quote or by the end of the string ([odd]: the parity
+    of the run being scanned). *)
+Fixpoint spellable_go (odd : bool) (s : str) : bool :=
+  match s with
+  | [] => negb odd
+  | c :: r =>
+      if c =? 92 then spellable_go (negb odd) r
+      else if c =? 39 then negb odd && spellable_go false r
+      else spellable_go false r
+  end.
+Definition spellable (s : str) : bool := spellable_go false s.
+
+Lemma raw_spell_head s : match raw_spell s with 39 :: _ => False | _ => True end.
+Proof.
+  destruct s as [|c r]; cbn [raw_spell]; [exact I|]. destruct (c =? 39) eqn:E; [exact I|].
+  destruct c; try exact I. repeat (destruct p; try exact I). discriminate E.
+Qed.
+
+(** the replacement of backslash-quote by quote undoes the spelling — for every string *)
+Lemma unescape_raw_all s : unescape 39 (raw_spell s) = s.
+Proof.
+  induction s as [|c s IH]; [reflexivity|]. cbn [raw_spell]. destruct (c =? 39) eqn:E.
+  - apply Z.eqb_eq in E. subst c. cbn [unescape]. rewrite !Z.eqb_refl. cbn. now rewrite IH.
+  - destruct (c =? 92) eqn:E2.
+    + apply Z.eqb_eq in E2. subst c. pose proof (raw_spell_head s) as Hh. cbn [unescape]. rewrite Z.eqb_refl.
+      destruct (raw_spell s) as [|c' r'] eqn:Er.
+      * destruct s as [|x s']; [reflexivity|]. cbn [raw_spell] in Er. destruct (x =? 39); discriminate.
+      * assert ((c' =? 39) = false) as -> by (apply Z.eqb_neq; intros ->; exact Hh). now rewrite IH.
+    + cbn [unescape]. rewrite E2. now rewrite IH.
+Qed.
+
+Lemma raw_spell_other c r : (c =? 39) = false -> raw_spell (c :: r) = c :: raw_spell r.
+Proof. intros E. cbn [raw_spell]. now rewrite E. Qed.
+Lemma raw_spell_quote r : raw_spell (39 :: r) = 92 :: 39 :: raw_spell r.
+Proof. reflexivity. Qed.
+
+Lemma consume_inside_spellable : forall n s, (length s <= n)%nat -> spellable s = true -> forall rest buf k fuel,
+  (length (raw_spell s) < fuel)%nat ->
+  consume_inside fuel 39 (raw_spell s ++ 39 :: rest) buf k =
+    Some (rev buf ++ raw_spell s, rest, k + byte_len (raw_spell s) + 1).
+Proof.
+  unfold spellable.
+  assert (Hbase : forall rest buf k fuel, (0 < fuel)%nat ->
+            consume_inside fuel 39 (39 :: rest) buf k = Some (rev buf ++ [], rest, k + 0 + 1)).
+  { intros rest buf k fuel Hf. destruct fuel; [inversion Hf|]. cbn [consume_inside]. rewrite Z.eqb_refl.
+    rewrite rev_append_rev. f_equal. f_equal. rewrite u39. lia. }
+  assert (E9239 : (92 =? 39) = false) by reflexivity.
+  induction n as [|n IH]; intros s Hn Hs rest buf k fuel Hf.
+  - destruct s; [|cbn in Hn; lia]. cbn [raw_spell app byte_len length] in *. now apply Hbase.
+  - destruct s as [|c r]; [cbn [raw_spell app byte_len length] in *; now apply Hbase|].
+    cbn [length] in Hn. cbn [spellable_go] in Hs. destruct (c =? 92) eqn:E92.
+    + (* a backslash of the contents: consumed together with what follows it *)
+      apply Z.eqb_eq in E92. subst c. cbn [negb] in Hs. destruct r as [|x r']; [discriminate Hs|]. cbn [spellable_go] in Hs. cbn [length] in Hn.
+      rewrite (raw_spell_other 92 (x :: r') E9239) in *.
+      destruct (x =? 92) eqn:Ex92.
+      * apply Z.eqb_eq in Ex92. subst x. cbn [negb] in Hs. rewrite (raw_spell_other 92 r' E9239) in *. cbn [app length] in *.
+        destruct fuel as [|fuel]; [inversion Hf|]. cbn [consume_inside]. rewrite E9239, Z.eqb_refl.
+        rewrite (IH r') by (try assumption; lia).
+        cbn [rev]. rewrite <- !app_assoc. cbn [app]. f_equal. f_equal. cbn [byte_len]. rewrite u92. lia.
+      * destruct (x =? 39) eqn:Ex39; [discriminate Hs|]. rewrite (raw_spell_other x r' Ex39) in *. cbn [app length] in *.
+        destruct fuel as [|fuel]; [inversion Hf|]. cbn [consume_inside]. rewrite E9239, Z.eqb_refl.
+        rewrite (IH r') by (try assumption; lia).
+        cbn [rev]. rewrite <- !app_assoc. cbn [app]. f_equal. f_equal. cbn [byte_len]. rewrite u92. lia.
+    + destruct (c =? 39) eqn:E39.
+      * (* a quote of the contents: spelled backslash-quote, consumed as a pair *)
+        apply Z.eqb_eq in E39. subst c. cbn [negb andb] in Hs. rewrite raw_spell_quote in *. cbn [app length] in *.
+        destruct fuel as [|fuel]; [inversion Hf|]. cbn [consume_inside]. rewrite E9239, Z.eqb_refl.
+        rewrite (IH r) by (try assumption; lia).
+        cbn [rev]. rewrite <- !app_assoc. cbn [app]. f_equal. f_equal. cbn [byte_len]. rewrite u39, u92. lia.
+      * rewrite (raw_spell_other c r E39) in *. cbn [app length] in *.
+        destruct fuel as [|fuel]; [inversion Hf|]. cbn [consume_inside]. rewrite E39, E92.
+        rewrite (IH r) by (try assumption; lia).
+        cbn [rev]. rewrite <- app_assoc. cbn [app]. f_equal. f_equal. cbn [byte_len]. lia.
+Qed.
+
+(** Every spellable string — backslashes anywhere, as long as no odd run of them
+    runs into a quote or the end — is the value of its raw-string spelling. *)
+Theorem raw_roundtrip s : spellable s = true ->
+  tokenize (39 :: raw_spell s ++ [39]) =
+    Ok [(0, TLiteral (VStr s)); (0 + 1 + (0 + byte_len (raw_spell s) + 1), TEof)].
+Proof.
+  intros H. unfold tokenize. cbn [length]. rewrite lex_go_raw.
+  rewrite (consume_inside_spellable (length s) s (le_n _) H [] [] 0) by (rewrite app_length; cbn [length]; lia).
+  cbn [rev app]. rewrite unescape_raw_all.
+  rewrite app_length. cbn [length]. rewrite Nat.add_comm. cbn [Nat.add]. rewrite lex_go_end. reflexivity.
+Qed.
+
+(** backslash-free strings are spellable *)
+Lemma no_backslash_spellable s : no_backslash s -> spellable s = true.
+Proof.
+  unfold spellable. induction 1 as [|c s Hc Hs IH]; [reflexivity|]. cbn [spellable_go].
+  assert ((c =? 92) = false) as -> by (apply Z.eqb_neq; exact Hc). destruct (c =? 39); exact IH.
+Qed.
+
+From JP Require Import Parser.
+
+(** ... and the expression consisting of that spelling compiles to the literal [s]. *)
+Theorem raw_compile s : spellable s = true -> parse (39 :: raw_spell s ++ [39]) = Ok (ALiteral (VStr s)).
+Proof. intros H. unfold parse. rewrite (raw_roundtrip s H). reflexivity. Qed.
